@@ -1644,6 +1644,16 @@ class Machine:
         fsrc = ast.unparse(e.func)
         if fsrc in ("cast", "t.cast", "typing.cast"):
             return self.eval(e.args[1])
+        if self.spec and fsrc == "keys_of" and len(e.args) == 1:
+            # keys_of(d): the insertion-ordered key sequence of a dict cell (spec only)
+            a0 = e.args[0]
+            v = self.env.get(a0.id) if isinstance(a0, ast.Name) and a0.id in self.env else self.eval(a0)
+            if isinstance(v, VHeapRef) and self.ctx.cell(v.addr).kind == "dict":
+                from .maps import dict_keys
+                if self._spec_old_mode:
+                    raise EngineError("keys_of under old()")
+                return dict_keys(self, self.ctx.cell(v.addr))
+            raise EngineError(f"keys_of({ast.unparse(a0)}): not a dict cell")
         func = self.eval(e.func)
         args: list[V] = []
         for a in e.args:
